@@ -24,6 +24,75 @@ def suffix(args, kwargs):
             + "".join(f"_{k}{_val_sfx(v)}" for k, v in sorted(kwargs.items())))
 
 
+# ------------------------------------------- results with their own equality protocol
+class _NoTruth:
+    """What an elementwise comparison returns: not a boolean (cf. numpy arrays)."""
+
+    def __bool__(self):
+        raise ValueError("the truth value of an elementwise comparison is ambiguous")
+
+
+class Probe:
+    """A mapper RESULT that is a foreign object: it wraps the tuple `payload` and
+    answers == / != by its class's protocol.  The recorder reads `payload` and
+    `PROTO` only; the protocol is there for whatever the mapper under test does with
+    its cached results."""
+    __slots__ = ("payload",)
+    PROTO = "std"
+
+    def __init__(self, payload):
+        self.payload = tuple(payload)
+
+    __hash__ = object.__hash__
+
+
+class ProbeAllEq(Probe):
+    """Claims to be equal to everything (== is True, != is False)."""
+    __slots__ = ()
+    PROTO = "alleq"
+
+    def __eq__(self, other):
+        return True
+
+    def __ne__(self, other):
+        return False
+
+    __hash__ = object.__hash__
+
+
+class ProbeElementwise(Probe):
+    """Comparisons are elementwise: the answer has no truth value."""
+    __slots__ = ()
+    PROTO = "elementwise"
+
+    def __eq__(self, other):
+        return _NoTruth()
+
+    def __ne__(self, other):
+        return _NoTruth()
+
+    __hash__ = object.__hash__
+
+
+PROBES = {c.PROTO: c for c in (Probe, ProbeAllEq, ProbeElementwise)}
+
+
+def arr_json(a):
+    """numpy array -> {"rk": "arr", dt, shape, items} (items as exact value records)."""
+    items = [ser.val_to_json(x) for x in a.ravel().tolist()]
+    if any(i["k"] == "unrep" for i in items):
+        return {"rk": "unser"}
+    return {"rk": "arr", "dt": a.dtype.kind, "shape": [int(n) for n in a.shape], "items": items}
+
+
+def env_val(j):
+    """environment value record -> Python value (arrays are this property's own)."""
+    if j["k"] == "arr":
+        import numpy as np
+        return np.array([ser.json_to_val(i) for i in j["items"]])
+    return ser.json_to_val(j)
+
+
 # ------------------------------------------------------------------ trace recorder
 class Recorder:
     """Interns trees (by their type-exact JSON) and argument tuples, collects events."""
@@ -74,9 +143,19 @@ class Recorder:
     def res_json(self, r):
         import ast as pyast
 
+        import numpy as np
         import pymbolic.primitives as p
         if r is None:
             return {"rk": "none"}
+        if isinstance(r, Probe):
+            was = self.unser
+            i = self.tree(r.payload)
+            if self.unser and not was:
+                self.unser = was
+                return {"rk": "unser"}
+            return {"rk": "obj", "eq": type(r).PROTO, "i": i}
+        if isinstance(r, np.ndarray):
+            return arr_json(r) if r.dtype.kind in "biuf" else {"rk": "unser"}
         if isinstance(r, str):
             return {"rk": "str", "txt": r}
         if isinstance(r, pyast.AST):
@@ -194,6 +273,27 @@ def _classes():
     class CachedLeafCount(_CountLeaf, CachedCombineMapper):
         pass
 
+    def probe_leaf(proto):
+        """Handlers of a combine mapper whose results are Probe objects of the given
+        protocol wrapping the flat tuple of the (renamed) leaves below the node."""
+        pcls = PROBES[proto]
+
+        class _ProbeLeaf:
+            def combine(self, values):
+                return pcls([leaf for v in values for leaf in v.payload])
+
+            def map_variable(self, expr, *args, **kwargs):
+                return pcls((p.Variable(expr.name + "_r" + suffix(args, kwargs)),))
+
+            def map_constant(self, expr, *args, **kwargs):
+                return pcls((expr,))
+        return _ProbeLeaf
+
+    def probe_pair(proto):
+        leaf = probe_leaf(proto)
+        return (type("CachedProbe_" + proto, (leaf, CachedCombineMapper), {}),
+                type("Probe_" + proto, (leaf, CombineMapper), {}))
+
     def bypass_cse(cls):
         """cls without the CSE result cache: the wrapper is recomputed every time."""
         def map_common_subexpression(self, expr, *args, **kwargs):
@@ -233,6 +333,9 @@ def make_pair(mk, tables):
         return (instrument(C["CachedVarCollector"]), (), instrument(C["VarCollector"]), ())
     if m == "count":
         return (instrument(C["CachedLeafCount"]), (), instrument(C["LeafCount"]), ())
+    if m == "probe":
+        cached, plain = C["probe_pair"](mk["eq"])
+        return (instrument(cached), (), instrument(plain), ())
     if m == "walk":
         return (instrument(C["CachedWalkMapper"]), (), instrument(C["WalkMapper"]), ())
     if m == "ncount":
@@ -252,7 +355,7 @@ def make_pair(mk, tables):
         return (instrument(CachedSubstitutionMapper), (sf,),
                 instrument(SubstitutionMapper), (sf,))
     if m == "eval":
-        env = {k: ser.json_to_val(v) for k, v in tables["envs"][mk["env"] - 1].items()}
+        env = {k: env_val(v) for k, v in tables["envs"][mk["env"] - 1].items()}
         plain = C["bypass_cse"](C["EvaluationMapper"])
         if mk["scope"] == "all":
             return (instrument(C["CachedEvaluationMapper"]), (env,), instrument(plain), (env,))
